@@ -22,6 +22,7 @@ func init() {
 	Register("RollAxis", opRollAxis)
 	Register("Materialize", opMaterialize)
 	Register("Clone", opClone)
+	Register("ShallowClone", opShallowClone)
 	Register("Copy", opCopy)
 	Register("Memset", opMemset)
 	Register("Zero", opZero)
@@ -470,6 +471,11 @@ func opMaterialize(w *World, st *Step) execResult {
 func opClone(w *World, st *Step) execResult {
 	r := w.T(st.Op.H).Clone().(*tensor.Dense)
 	w.noteLib()
+	return execResult{ret: r}
+}
+
+func opShallowClone(w *World, st *Step) execResult {
+	r := w.T(st.Op.H).ShallowClone() // no allocation: the storage is the operand's
 	return execResult{ret: r}
 }
 
